@@ -56,6 +56,18 @@ func main() {
 		fmt.Println(string(b))
 		return
 	}
+	if scan := os.Getenv("C16_SCAN"); scan != "" { // C16_SCAN=phase:from-to:counter lists the cases that bumped a counter
+		var from, to int
+		p := strings.Split(scan, ":")
+		fmt.Sscanf(p[1], "%d-%d", &from, &to)
+		for i := from; i < to; i++ {
+			res := runCase(p[0], i)
+			if res.Cnt[p[2]] > 0 {
+				fmt.Println(i, res.Cnt[p[2]])
+			}
+		}
+		return
+	}
 	r := evidence.New("C16", "exploration")
 	r.Rule("case = (2-4 registry hosts out of a pool incl. same name/different port, each with own credential {user+password, +refresh token, refresh only, static access token, wrong password, none}, " +
 		"scheme {Basic, Bearer, open, unknown}, realm on {own host, foreign token host (possibly shared), another registry's host}; one auth.Client with cache flavour {none, NewCache, NewSingleContextCache}, ForceAttemptOAuth2 on/off). " +
@@ -971,6 +983,7 @@ func storm(e *env, rd int) (string, bool) {
 				st := e.world.State(o.corr)
 				if e.valid(e.regs[o.spec.Reg]) && (o.err != nil || o.status == 401 || st.Sends > 3 || st.Fetches > 1) {
 					e.count("unjudged_singlectx_mixed_shapes_anomalies", 1)
+					e.ops = append(e.ops, fmt.Sprintf("ANOMALY (unjudged): corr %d err=%v status=%d sends=%d fetches=%d", o.corr, o.err, o.status, st.Sends, st.Fetches))
 				}
 				e.count("unjudged_singlectx_mixed_shapes_requests", 1)
 				continue
